@@ -119,6 +119,9 @@ def compare(op, a, b):
         if type(op) in (ast.In, ast.NotIn) and isinstance(b, Vec) and not isinstance(a, Vec):
             r = any(same(a, x) for x in b.v)
             return r if isinstance(op, ast.In) else not r
+        if type(op) in (ast.Eq, ast.NotEq, ast.Lt, ast.LtE, ast.Gt, ast.GtE):
+            # element-wise: a missing value (NaN / None) compares unequal to everything, itself included
+            return lift2(lambda x, y: isinstance(op, ast.NotEq) if (is_nan(x) or is_nan(y)) else compare(op, x, y), a, b)
         return lift2(lambda x, y: compare(op, x, y), a, b)
     if type(op) in (ast.Is, ast.IsNot):
         r = a is b or (a is None and b is None)
@@ -253,6 +256,21 @@ def binop(op, a, b):
                 return r
             if tb.is_const() and tb.cval() == Fr(1, 2):
                 return f_sqrt(a)
+            ta_ = T(a)
+            if ta_.is_const() and tb.is_const() and ta_.cval() > 0:
+                # a rational power of a rational that is itself rational (16 ** -0.5): computed exactly
+                base, ex = ta_.cval(), tb.cval()
+                if ex.denominator in (2, 3) and abs(ex.numerator) <= 8:
+                    def root(x, k):
+                        r = round(x ** (1.0 / k))
+                        for c in (r - 1, r, r + 1):
+                            if c >= 0 and c ** k == x:
+                                return c
+                        return None
+                    rn, rd = root(base.numerator, ex.denominator), root(base.denominator, ex.denominator)
+                    if rn is not None and rd is not None and rn > 0:
+                        val = Fr(rn, rd) ** abs(ex.numerator)
+                        return Term.const(val if ex > 0 else 1 / val)
             return fatom("pow", [T(a), tb])
         if type(op) is ast.FloorDiv:
             ta, tb = T(a), T(b)
